@@ -51,7 +51,9 @@ FORMS = [B(*f) for f in [
     ('RENAME', 'ks', 'new'), ('RENAME', 'ks', 'kl'), ('RENAME', 'kt', 'new'), ('RENAME', 'ks', 'kt'), ('RENAME', 'kl', 'new'), ('RENAME', 'nokey', 'new'),
     ('RENAME', 'ks', 'ks'), ('RENAME', 'kz', 'ks'), ('RENAMENX', 'ks', 'new'), ('RENAMENX', 'ks', 'kl'), ('RENAMENX', 'kt', 'new'), ('RENAMENX', 'nokey', 'new'),
     ('RENAMENX', 'ks', 'ks'),
-    ('KEYS', '*'), ('KEYS', 'k?'), ('KEYS', 'k[lS]'), ('KEYS', 'nomatch*'), ('KEYS',), ('DBSIZE',), ('RANDOMKEY',), ('FLUSHDB',), ('FLUSHALL',),
+    ('KEYS', '*'), ('KEYS', 'k?'), ('KEYS', 'k[lS]'), ('KEYS', 'nomatch*'), ('KEYS',),
+    # patterns without a glob character (a fast path may take them for one exact name)
+    ('KEYS', 'ks'), ('KEYS', 'kt'), ('KEYS', 'kl'), ('KEYS', 'kh'), ('KEYS', 'nokey'), ('KEYS', 'k\\s'), ('SCAN', '0', 'MATCH', 'kt', 'COUNT', '100'), ('SCAN', '0', 'MATCH', 'kz', 'COUNT', '100'), ('DBSIZE',), ('RANDOMKEY',), ('FLUSHDB',), ('FLUSHALL',),
     ('SCAN', '0'), ('SCAN', '0', 'COUNT', '100'), ('SCAN', '0', 'MATCH', 'k?', 'COUNT', '100'), ('SCAN', '0', 'match', 'kS*', 'count', '100'), ('SCAN', 'x'),
     ('ECHO', 'hello'), ('PING',), ('PING', 'msg'),
     # lists
@@ -107,6 +109,8 @@ FORMS = [B(*f) for f in [
     ('XRANGE', 'kl', '-', '+'), ('XREVRANGE', 'kx', '+', '-'), ('XREVRANGE', 'kx', '+', '-', 'COUNT', '1'), ('XREVRANGE', 'kx', '1-1', '-'),
     ('XDEL', 'kx', '1-1'), ('XDEL', 'kx', '1-1', '7-7', '1-1'), ('XDEL', 'kx', '1-1', '2-0'), ('XDEL', 'nokey', '1-1'), ('XDEL', 'kl', '1-1'),
     ('XTRIM', 'kx', 'MAXLEN', '1'), ('XTRIM', 'kx', 'MAXLEN', '0'), ('XTRIM', 'kx', 'MAXLEN', '5'), ('XTRIM', 'nokey', 'MAXLEN', '1'),
+    ('XRANGE', 'kx', '-', '+', 'COUNT', '2147483647'), ('XRANGE', 'kx', '-', '+', 'COUNT', '9223372036854775807'), ('XREVRANGE', 'kx', '+', '-', 'COUNT', '4294967296'),
+    ('XREVRANGE', 'kx', '+', '-', 'COUNT', '9223372036854775807'), ('XREAD', 'COUNT', '9223372036854775807', 'STREAMS', 'kx', '0-0'),
     ('XREAD', 'STREAMS', 'kx', '0-0'), ('XREAD', 'COUNT', '1', 'STREAMS', 'kx', '0-0'), ('XREAD', 'STREAMS', 'kx', '2-0'), ('XREAD', 'STREAMS', 'kx', '1-1'),
     # consumer groups (group grp on kx: 1-1 pending for c1, 2-0 not yet delivered)
     ('XREADGROUP', 'GROUP', 'grp', 'c2', 'STREAMS', 'kx', '>'), ('XREADGROUP', 'GROUP', 'grp', 'c2', 'COUNT', '1', 'STREAMS', 'kx', '>'),
